@@ -2,7 +2,8 @@
 (* C17 design: a state trie (store/trie Trie / SecureTrie over store.TrieDatabase over BeansDB).
 
    kv      the content - what reads must return and what the root commits to
-   shape   the node structure the implementation's insert/delete produce (TrieKVOps.Ins / Del)
+   Shape   (derived) the node structure; the clauses below show by induction that the structure the
+           implementation's insert / delete (TrieKVOps.Ins / Del) produce is always Canon(content)
    tag     where the root of the CURRENT content can be loaded from:
              "dirty" nowhere, "mem" the TrieDatabase node cache (Trie.Commit), "disk" BeansDB
              (TrieDatabase.Commit)
@@ -15,17 +16,20 @@
    run logs the real root and all reads after every step; TraceTrieKV decides "root is a function of
    content" over all replayed paths. *)
 EXTENDS TrieKVOps
-CONSTANTS Keys, Vals, Path, Kinds, Lims, MaxOld, ReopenModes, Merge
-VARIABLES kind, lim, kv, shape, tag, old
-vars == <<kind, lim, kv, shape, tag, old>>
+CONSTANTS Keys, Vals, Path, Variants, MaxOld, ReopenModes, Merge, Ticking
+VARIABLES kind, lim, kv, tag, old, tick
+vars == <<kind, lim, kv, tag, old, tick>>
+svars == <<kind, lim, kv, tag, old>>
+\* Ticking = TRUE (simulation configs) makes every call a visible step, also those that leave the content alone
+Tick == tick' = IF Ticking THEN tick + 1 ELSE tick
 
 Contents == [Keys -> Vals \cup {NONE}]
 Empty == [k \in Keys |-> NONE]
 Rank(t) == IF t = "disk" THEN 2 ELSE IF t = "mem" THEN 1 ELSE 0
 Best(a, b) == IF Rank(a) >= Rank(b) THEN a ELSE b
 
-Init == /\ kind \in Kinds /\ lim \in Lims
-        /\ kv = Empty /\ shape = NIL /\ tag = "dirty" /\ old = <<>>
+Init == /\ \E v \in Variants : kind = v[1] /\ lim = v[2]          \* <<"plain" | "secure", cache limit>>
+        /\ kv = Empty /\ tag = "dirty" /\ old = <<>> /\ tick = 0
 
 \* where content c can be loaded from, given the bookkeeping
 OldTag(o, c) == IF \E i \in 1..Len(o) : o[i].c = c THEN (CHOOSE e \in {o[i] : i \in 1..Len(o)} : e.c = c).t ELSE "dirty"
@@ -37,17 +41,17 @@ Move(c2) ==
        IN /\ tag' = OldTag(o1, c2)
           /\ old' = Take(Without(o1, c2), IF Len(Without(o1, c2)) < MaxOld THEN Len(Without(o1, c2)) ELSE MaxOld)
 
-Put(k, v) == /\ kv' = PutKV(kv, k, v) /\ shape' = Ins(shape, Path[k], V(v))
-             /\ Move(PutKV(kv, k, v)) /\ UNCHANGED <<kind, lim>>
+Put(k, v) == /\ kv' = PutKV(kv, k, v)
+             /\ Move(PutKV(kv, k, v)) /\ UNCHANGED <<kind, lim>> /\ Tick
 \* via = "delete": TryDelete;  via = "empty": TryUpdate with an empty value
-Remove(k, via) == /\ kv' = DelKV(kv, k) /\ shape' = Del(shape, Path[k], Merge)
-                  /\ Move(DelKV(kv, k)) /\ UNCHANGED <<kind, lim>>
-Get(k) == UNCHANGED vars
-Hash == UNCHANGED vars
+Remove(k, via) == /\ kv' = DelKV(kv, k)
+                  /\ Move(DelKV(kv, k)) /\ UNCHANGED <<kind, lim>> /\ Tick
+Get(k) == UNCHANGED svars /\ Tick
+Hash == UNCHANGED svars /\ Tick
 \* Trie.Commit (nodes into the TrieDatabase cache, cache generation + 1, old generations unloaded),
 \* flush: followed by TrieDatabase.Commit(root) as account.Manager.Save / StorageCache.Save do
 Commit(flush) == /\ tag' = IF flush THEN "disk" ELSE Best(tag, "mem")
-                 /\ UNCHANGED <<kind, lim, kv, shape, old>>
+                 /\ UNCHANGED <<kind, lim, kv, old>> /\ Tick
 \* a new trie object from the root of the current (i = 0) or an older committed content;
 \* mode "same": on the same TrieDatabase, "fresh": on a new TrieDatabase over the same BeansDB,
 \* "restart": after closing and re-opening the chain database directory
@@ -59,11 +63,11 @@ Reopen(i, mode) ==
       o3 == IF mode = "same" THEN o2 ELSE SelectSeq(o2, LAMBDA e : e.t = "disk")   \* the node cache is gone
   IN /\ i <= Len(old)
      /\ IF mode = "same" THEN t # "dirty" ELSE t = "disk"
-     /\ kv' = c /\ shape' = Canon(Pairs(Path, c)) /\ tag' = t
+     /\ kv' = c /\ tag' = t
      /\ old' = Take(o3, IF Len(o3) < MaxOld THEN Len(o3) ELSE MaxOld)
-     /\ UNCHANGED <<kind, lim>>
+     /\ UNCHANGED <<kind, lim>> /\ Tick
 \* build and check proofs for every key from the nodes reachable from the current root
-ProveAll == tag # "dirty" /\ UNCHANGED vars
+ProveAll == tag # "dirty" /\ UNCHANGED svars /\ Tick
 
 Next == \/ \E k \in Keys, v \in Vals : Put(k, v)
         \/ \E k \in Keys, via \in {"delete", "empty"} : Remove(k, via)
@@ -75,10 +79,15 @@ Next == \/ \E k \in Keys, v \in Vals : Put(k, v)
 Spec == Init /\ [][Next]_vars
 
 \* ---- clauses ------------------------------------------------------------------------------------
-\* the node structure depends on the content only, not on the order of insertions and deletions
-ShapeCanonical == shape = Canon(Pairs(Path, kv))
+\* The node structure depends on the content only, not on the order of insertions and deletions:
+\* the empty trie is canonical, a reopened trie is what was stored, and from the canonical structure of ANY
+\* content every insert and every delete of the implementation leads to the canonical structure of the new
+\* content.  Checked on every reachable content.
+Shape == Canon(Pairs(Path, kv))
+InsertKeepsCanonical == \A k \in Keys, v \in Vals : Ins(Shape, Path[k], V(v)) = Canon(Pairs(Path, PutKV(kv, k, v)))
+DeleteKeepsCanonical == \A k \in Keys : Del(Shape, Path[k], Merge) = Canon(Pairs(Path, DelKV(kv, k)))
 \* reads return the last value written
-ReadsLastWritten == \A k \in Keys : Look(shape, Path[k]) = kv[k]
+ReadsLastWritten == \A k \in Keys : Look(Shape, Path[k]) = kv[k]
 \* different contents have different structures, hence (free hash) different roots; checked once
 RootBindsContent == (kv = Empty /\ tag = "dirty") =>
                       Cardinality({Canon(Pairs(Path, c)) : c \in Contents}) = Cardinality(Contents)
